@@ -112,7 +112,9 @@ def fill(obj, B, v, route=None):
             if route is not None and pres == 'def' and U.canon(ft, v[name]) == U.canon(ft, dv) \
                     and route.omit_default():
                 continue
-            sub = value(ft, v[name], route)
+            # build the member from the component type the parent actually declares (it may carry
+            # constraints the AST does not know about)
+            sub = value(ft, v[name], route, sch=obj.componentType[name].asn1Object)
             if route is not None and route.by_position():
                 obj.setComponentByPosition([f[0] for f in B[1]].index(name), sub)
             else:
@@ -123,7 +125,7 @@ def fill(obj, B, v, route=None):
         if route is not None and k == 'setof':
             items = route.order(items)
         how = route.list_route() if route is not None else 'append'
-        subs = [value(B[1], x, route) for x in items]
+        subs = [value(B[1], x, route, sch=obj.componentType) for x in items]
         if how == 'extend':
             obj.extend(subs)
         elif how == 'setpos':
@@ -134,7 +136,7 @@ def fill(obj, B, v, route=None):
                 obj.append(sv)
     elif k == 'choice':
         alt, av = v
-        obj.setComponentByName(alt, value(dict(B[1])[alt], av, route))
+        obj.setComponentByName(alt, value(dict(B[1])[alt], av, route, sch=obj.componentType[alt].asn1Object))
     else:
         raise ValueError(B)
 
